@@ -843,11 +843,33 @@ inductive Event where
   | gc (now : Nat)
   /-- a legacy (pre-0.10) object appears behind the wrapper's back, the wrapper is re-opened -/
   | legacy (now : Nat) (k : Path) (data : Bytes) (tok : Tok)
+  /-- `collect_garbage` started at `now` dies after `n` of its deletions; restart with a cold cache -/
+  | gcCrash (now : Nat) (n : Nat)
+  /-- a multipart upload is started and then aborted / dropped without `complete` -/
+  | abort
   deriving Repr
 
 /-- the wrapper a restart builds over what survived -/
 def crashState (w : W) (now : Nat) (c : Call) (n : Nat) : W :=
   { flavor := w.flavor, be := applyPrefix now w.be (stepsOf w now c) n, cache := [], inflight := [], nextId := w.nextId + 1 }
+
+/-! ### a crash inside `collect_garbage`; aborted uploads -/
+
+/-- the sweep cut by a crash: `budget` deletions land, the next one does not -/
+def gcSweepCut (inflight : List (Path × Gen)) : Backend → List BPath → Nat → Backend
+  | be, [], _ => be
+  | be, p :: ps, budget =>
+      let r := gcCandidateStep inflight be p
+      if r.2 ≤ budget then gcSweepCut inflight r.1 ps (budget - r.2) else be
+
+/-- the wrapper a restart builds after `collect_garbage` (started at `now`) died after `n` deletions -/
+def gcCrashState (w : W) (now : Nat) (n : Nat) : W :=
+  { flavor := w.flavor, be := gcSweepCut w.inflight w.be (gcCandidates w.be now) n, cache := [], inflight := [],
+    nextId := w.nextId }
+
+/-- a multipart upload that is aborted (or dropped) before `complete`: a generation id is used up,
+nothing reaches the backend -/
+def abortUpload (w : W) : W := { w with nextId := w.nextId + 1 }
 
 def runEvent (w : W) : Event → W
   | .call now c => (wStep w now c).1
@@ -855,6 +877,8 @@ def runEvent (w : W) : Event → W
   | .crash now c n => crashState w now c n
   | .gc now => (gcRun w now).1
   | .legacy now k data tok => legacyPut w now k data tok
+  | .gcCrash now n => gcCrashState w now n
+  | .abort => abortUpload w
 
 def run (w : W) (es : List Event) : W := es.foldl runEvent w
 
